@@ -413,6 +413,27 @@ theorem parse_or_log_never_raises (c : Cfg) (hc : ParamsVE c) (s : Str) :
     have := parse_total c hc s e he
     simp [this]
 
+/-- **C11, `--escaped-fragment` rewriting.**  `URLRewriter.rewrite` (hash-fragment part) applied to any URL
+whose normal form is readable never raises — whatever the URL holds (`{id}`, `{}`, lone braces, `%s`): the URL
+is concatenated, not used as a format string. -/
+theorem rewrite_never_raises (c : Cfg) (hc : ParamsVE c) (i : URLInfo) (hu : ∃ u, i.url = .ok u) :
+    ∃ j, rewriteEscaped c i = .ok j := by
+  obtain ⟨u, hu⟩ := hu
+  unfold rewriteEscaped
+  split
+  · split
+    · rw [hu]
+      simp only
+      rename_i rest _
+      obtain ⟨r, hr⟩ := parse_or_log_never_raises c hc
+        (u ++ [if (i.query.getD []).isEmpty then 63 else 38] ++ sEscFrag ++ rest)
+      rw [hr]
+      cases r with
+      | none => exact ⟨_, rfl⟩
+      | some j => exact ⟨_, rfl⟩
+    · exact ⟨_, rfl⟩
+  · exact ⟨_, rfl⟩
+
 theorem hexChar_isHex : ∀ n, n < 16 → isHexDigit (hexChar n) = true := by decide
 
 /-- **C11, the percent-encode table is total.**  For every byte value 0..255 and every encode set the
@@ -612,6 +633,9 @@ example : parse cfg0 [104, 116, 116, 112, 58, 47, 47, 0xdc80, 64, 104, 47] = .er
 -- `mailto:x` (no network scheme): every accessor returns
 example : ((parse cfg0 [109, 97, 105, 108, 116, 111, 58, 120]).bind URLInfo.queryMap) = .ok [([], [[]])] := by decide
 example : parseOrLog cfg0 [58] = .ok none := by decide
+-- `http://h/{id}#!x` is rewritten to `http://h/{id}?_escaped_fragment_=x`
+example : ((parse cfg0 [104, 116, 116, 112, 58, 47, 47, 104, 47, 123, 105, 100, 125, 35, 33, 120]).bind (rewriteEscaped cfg0)).bind URLInfo.url
+    = .ok ([104, 116, 116, 112, 58, 47, 47, 104, 47, 123, 105, 100, 125, 63] ++ sEscFrag ++ [120]) := by decide
 -- a junk link between two good ones is skipped: `["h.x", ":", "mailto:x"]` keeps two results
 example : (scrapeParse cfg0 [[104, 46, 120], [58], [109, 97, 105, 108, 116, 111, 58, 120]]).map List.length = .ok 2 := by decide
 example : urljoinSafe (fun _ _ _ => .error .ValueError) true [104] [47, 47, 120] = .ok none := by decide
